@@ -727,6 +727,7 @@ def _parse_schema(
                             name=None,
                             type=actual_item_ir.name,
                             description=actual_item_ir.description or items_node.get("description"),
+                            is_nullable=bool(items_node.get("nullable", False) or actual_item_ir.is_nullable),
                         )
                         ref_holder_ir._refers_to_schema = actual_item_ir
                         items_ir = ref_holder_ir
@@ -837,6 +838,7 @@ def _parse_schema(
                     name=None,
                     type=direct_reparsed_item_ir.name,
                     description=direct_reparsed_item_ir.description or raw_items_node.get("description"),
+                    is_nullable=bool(raw_items_node.get("nullable", False) or direct_reparsed_item_ir.is_nullable),
                 )
                 ref_holder_for_reparse_ir._refers_to_schema = direct_reparsed_item_ir
                 schema_ir.items = ref_holder_for_reparse_ir
